@@ -508,7 +508,7 @@ static void do_call(char **tok, int ntok) {
     {
         struct timespec ts;
         clock_gettime(CLOCK_REALTIME, &ts);
-        eb_printf("\"now\":%ld.%06ld,\"now_s\":%ld,", (long) ts.tv_sec, ts.tv_nsec / 1000, (long) ts.tv_sec);
+        eb_printf("\"now\":%ld.%06ld,\"now_s\":%ld,\"now_us\":%lld,", (long) ts.tv_sec, ts.tv_nsec / 1000, (long) ts.tv_sec, (long long) ts.tv_sec * 1000000LL + ts.tv_nsec / 1000);
     }
     eb_printf("\"argc\":%zu}\n", vec_len(argv));
     eb_flush();
@@ -529,7 +529,7 @@ static void do_call(char **tok, int ntok) {
     {
         struct timespec ts;
         clock_gettime(CLOCK_REALTIME, &ts);
-        eb_printf("\"now\":%ld.%06ld,\"now_s\":%ld,", (long) ts.tv_sec, ts.tv_nsec / 1000, (long) ts.tv_sec);
+        eb_printf("\"now\":%ld.%06ld,\"now_s\":%ld,\"now_us\":%lld,", (long) ts.tv_sec, ts.tv_nsec / 1000, (long) ts.tv_sec, (long long) ts.tv_sec * 1000000LL + ts.tv_nsec / 1000);
     }
     eb_printf("\"done\":1}\n");
     eb_flush();
@@ -679,7 +679,7 @@ static void do_oracle(long id) {
     }
     struct timespec ts;
     clock_gettime(CLOCK_REALTIME, &ts);
-    eb_printf("\"now_s\":%ld,\"now\":%ld.%06ld}\n", (long) ts.tv_sec, (long) ts.tv_sec, ts.tv_nsec / 1000);
+    eb_printf("\"now_s\":%ld,\"now_us\":%lld,\"now\":%ld.%06ld}\n", (long) ts.tv_sec, (long long) ts.tv_sec * 1000000LL + ts.tv_nsec / 1000, (long) ts.tv_sec, ts.tv_nsec / 1000);
     eb_flush();
 }
 
